@@ -35,7 +35,11 @@ func VerifH_C17_scanRange() {
 		a4[k] = ndBytes("addr", 4)
 		isV4[k] = ndBool("addrIsIPv4")
 		if isV4[k] {
-			ifs[k].Addrs = []net.Addr{&net.IPNet{IP: net.IP(a4[k]), Mask: net.CIDRMask(verifParam("IFP", 24), 32)}}
+			aip := net.IP(a4[k])
+			if verifParam("ADDR16", 1) == 1 { // package net reports IPv4 interface addresses in 16-byte form
+				aip = net.IPv4(a4[k][0], a4[k][1], a4[k][2], a4[k][3])
+			}
+			ifs[k].Addrs = []net.Addr{&net.IPNet{IP: aip, Mask: net.CIDRMask(verifParam("IFP", 24), 32)}}
 		} else {
 			ifs[k].Addrs = []net.Addr{&net.IPNet{IP: net.ParseIP("fe80::1"), Mask: net.CIDRMask(64, 128)}}
 		}
@@ -49,7 +53,10 @@ func VerifH_C17_scanRange() {
 		def[k] = ndBool("routeIsDefault")
 		metric[k] = int(ndU8("metric"))
 		link[k] = 1 + int(verifConcretize(uint64(ndU8("link")&1)))
-		rt := netlink.Route{LinkIndex: link[k], Priority: metric[k], Gw: net.IPv4(10, 9, 9, byte(k+1))}
+		rt := netlink.Route{LinkIndex: link[k], Priority: metric[k]}
+		if verifParam("GWS", 3)>>uint(k)&1 == 1 { // a device route ("default dev tun0") has no gateway
+			rt.Gw = net.IPv4(10, 9, 9, byte(k+1))
+		}
 		if !def[k] {
 			rt.Dst = &net.IPNet{IP: net.IPv4(172, 16, 0, 0).To4(), Mask: net.CIDRMask(12, 32)}
 		}
@@ -71,6 +78,9 @@ func VerifH_C17_scanRange() {
 	oip, omac := ndBytes("srcip", 4), ndBytes("srcmac", 6)
 	if srcipFlag {
 		o.srcIP = net.IP(oip)
+		if verifParam("SRC16", 1) == 1 { // the flag parser (net.ParseIP) yields the 16-byte form
+			o.srcIP = net.IPv4(oip[0], oip[1], oip[2], oip[3])
+		}
 	}
 	if srcmacFlag {
 		o.srcMAC = omac
@@ -133,7 +143,7 @@ func VerifH_C17_scanRange() {
 		return
 	}
 	verifAssert(r.Interface.Index == chosen+1, "probes would leave through the wrong interface")
-	verifAssert(len(r.SrcIP) == 4, "no usable IPv4 source address, yet the scan goes ahead with an empty source")
+	verifAssert(len(r.SrcIP) == 4, "source address is not a 4-byte IPv4 address (empty, or a form the frame builders write as 0.0.0.0)")
 	if wantIP != nil && len(r.SrcIP) == 4 {
 		verifAssert(c17Same(r.SrcIP, wantIP), "source address is not the chosen interface's own address (or the --srcip override)")
 	}
